@@ -69,9 +69,26 @@ func GenLCase(seed uint64) *LCase {
 	}
 	// hostile import spellings: from a random inside file to a random file (inside or
 	// outside), relative with ".." chains, rooted, with dot segments / detours
+	// module first, so that half of the imports can be attached to it (always reached)
+	mod := files[r.Intn(nIn)]
+	if r.Chance(0.2) && len(files) > nIn {
+		mod = files[nIn+r.Intn(len(files)-nIn)] // a module outside the root
+	}
+	var siblings []*lfile // directories sharing the root's name as a prefix: /projx, /w/projx
+	for _, f := range files[nIn:] {
+		if strings.HasPrefix(f.abs, c.Root) && c.Root != "/" {
+			siblings = append(siblings, f)
+		}
+	}
 	for k := 0; k < r.Range(1, 6); k++ {
 		from := files[r.Intn(nIn)]
+		if r.Chance(0.5) {
+			from = mod
+		}
 		to := files[r.Intn(len(files))]
+		if len(siblings) > 0 && r.Chance(0.25) {
+			to = siblings[r.Intn(len(siblings))]
+		}
 		sp := spellTo(r, c.Root, from.abs, to.abs)
 		if sp == "" || isRemote(sp) || isRemote(strings.TrimPrefix(sp, "/")) {
 			continue
@@ -90,10 +107,6 @@ func GenLCase(seed uint64) *LCase {
 		c.Files[path.Join(c.Root, c.Marker, "keep")] = ""
 	}
 	// module argument
-	mod := files[r.Intn(nIn)]
-	if r.Chance(0.2) && len(files) > nIn {
-		mod = files[nIn+r.Intn(len(files)-nIn)] // a module outside the root
-	}
 	if c.Explicit {
 		rel := strings.TrimPrefix(strings.TrimPrefix(mod.abs, c.Root), "/")
 		if !strings.HasPrefix(mod.abs, strings.TrimSuffix(c.Root, "/")+"/") {
@@ -181,6 +194,16 @@ var logOnce sync.Once
 // of marker discovery (<ancestor of the module>/.sysl and /.git), which happen before a
 // root is in force.
 func RunLCase(c *LCase, cnt core.Counters) (*LResult, []V) {
+	return RunLCaseExec(c, cnt, nil, nil)
+}
+
+// Exec runs "the compiler" over the simulated disk: the loader by default, the whole
+// command line in driver 3.  allow lists path prefixes outside the root that the
+// executor itself may touch (the output file the command line names).
+type Exec func(disk *simfs.Fs, root, module string, depth int) (apps []string, err error)
+
+// RunLCaseExec is RunLCase with a pluggable executor.
+func RunLCaseExec(c *LCase, cnt core.Counters, exec Exec, allow []string) (*LResult, []V) {
 	logOnce.Do(func() { logrus.SetOutput(new(bytes.Buffer)) })
 	disk := simfs.New()
 	for p, content := range c.Files {
@@ -203,6 +226,15 @@ func RunLCase(c *LCase, cnt core.Counters) (*LResult, []V) {
 			cl := disk.Abs(p)
 			inside := expRoot == "/" || cl == expRoot || strings.HasPrefix(cl, expRoot+"/")
 			if inside {
+				continue
+			}
+			allowed := false
+			for _, a := range allow {
+				if cl == a || strings.HasPrefix(cl, a+"/") {
+					allowed = true
+				}
+			}
+			if allowed {
 				continue
 			}
 			base := path.Base(cl)
@@ -236,6 +268,16 @@ func RunLCase(c *LCase, cnt core.Counters) (*LResult, []V) {
 		root := ""
 		if c.Explicit {
 			root = c.Root
+		}
+		if exec != nil {
+			apps, err := exec(disk, root, c.Module, c.MaxDepth)
+			if err != nil {
+				res.Err = err.Error()
+				return
+			}
+			res.OK = true
+			res.Apps = apps
+			return
 		}
 		logger := logrus.New()
 		logger.SetOutput(new(bytes.Buffer))
